@@ -449,34 +449,29 @@ def check_closeto(sess, i, op, m, backend, store):
     border = [k for k, v in exp.items() if abs(v[0] - radius) <= tol_d]
     if border:
         sess.bump("fragile")
+    def outside_box(edge_list):
+        """Known finding D6: every edge of the list starts outside the map's own query box."""
+        lat_b, lon_l, lat_t, lon_r = m.box_around_point((loc[0], loc[1]), radius)
+        for a, b in edge_list:
+            y, x = store.loc[a]
+            if lat_b <= y <= lat_t and lon_l <= x <= lon_r:
+                return False
+        return True
+    d6 = "C11/inmem/edges_closeto/missing/start-node-outside-box"
     if kmax is None:
         missing = [k for _, _, k in inside if k not in got]
         if missing:
             cls = "C11/%s/%s/missing" % (backend, what)
-            if backend == "inmem" and not nodes:
-                # known finding D6: the in-memory map only scans edges whose START node is inside the box
-                box_ok = True
-                for a, b in missing:
-                    y, x = store.loc[a]
-                    if latlon:
-                        if geom.dist(loc, (y, x)) < radius * 0.999:
-                            box_ok = False
-                    else:
-                        if abs(y - loc[0]) <= radius and abs(x - loc[1]) <= radius:
-                            box_ok = False
-                if box_ok:
-                    cls += "/start-node-outside-box"
+            if backend == "inmem" and not nodes and outside_box(missing):
+                cls = d6
             vs.append(V(cls, "missing %r (radius %r at %r)" % (missing[:4], radius, loc), i))
     else:
         want = min(kmax, len(inside))
         if len(ans) < want and not border:
-            # may still be the D6 pre-filter
             cls = "C11/%s/%s/truncation-too-short" % (backend, what)
-            if backend == "inmem" and not nodes:
-                missing = [k for _, _, k in inside if k not in got]
-                if missing and all((abs(store.loc[a][0] - loc[0]) > radius or abs(store.loc[a][1] - loc[1]) > radius)
-                                   if not latlon else geom.dist(loc, store.loc[a]) >= radius * 0.999 for a, b in missing):
-                    cls = "C11/inmem/edges_closeto/missing/start-node-outside-box"
+            missing = [k for _, _, k in inside if k not in got]
+            if backend == "inmem" and not nodes and missing and outside_box(missing):
+                cls = d6
             vs.append(V(cls, "got %d want %d" % (len(ans), want), i))
         if len(ans) > kmax:
             vs.append(V("C11/%s/%s/truncation-too-long" % (backend, what), "got %d max %d" % (len(ans), kmax), i))
@@ -485,10 +480,8 @@ def check_closeto(sess, i, op, m, backend, store):
             better = [k for _, _, k in inside if k not in got and exp[k][0] < worst - 2 * tol_d]
             if better:
                 cls = "C11/%s/%s/truncation-not-nearest" % (backend, what)
-                if backend == "inmem" and not nodes and all(
-                        (abs(store.loc[a][0] - loc[0]) > radius or abs(store.loc[a][1] - loc[1]) > radius)
-                        if not latlon else geom.dist(loc, store.loc[a]) >= radius * 0.999 for a, b in better):
-                    cls = "C11/inmem/edges_closeto/missing/start-node-outside-box"
+                if backend == "inmem" and not nodes and outside_box(better):
+                    cls = d6
                 vs.append(V(cls, "nearer elements not returned: %r" % (better[:4],), i))
     if not nodes:
         long_edges = [k for k, v in exp.items() if v[0] < radius and 0.02 < v[2] < 0.98 and
@@ -728,8 +721,9 @@ def eval_C12(doc):
         elif oa_.obs is not None and ob.obs is not None:
             c = compare(oa_.obs, ob.obs)
             if c.startswith("diff"):
-                if doc["cfg"].get("avoid_goingback", True) and c != "diff:idx":
-                    sess.bump("inconclusive_second_order")
+                from .twins import tie_upstream
+                if c != "diff:idx" and tie_upstream(doc["cfg"], a, b):
+                    sess.bump("inconclusive_tie_upstream")
                 else:
                     sess.vs.append(V("C12/match/" + c, "inmem=%r sqlite=%r" % ((oa_.obs["idx"], oa_.obs["bestE"]), (ob.obs["idx"], ob.obs["bestE"])), len(doc["ops"])))
             elif c.startswith("tie"):
